@@ -38,6 +38,8 @@ def main():
         note = "" if first is None or first else " (after strengthening)"
         if not m.get("caught_by") and m.get("why_not_caught"):
             caught = "not caught: " + m["why_not_caught"]
+        if m.get("obsolete_since"):
+            note += "; harmless since the repair %s, no longer reported" % m["obsolete_since"]
         viol = ""
         for c in m.get("caught_by") or []:
             v = [x for x in m["checks"][c]["violations"] if x.startswith("  ->")]
